@@ -534,9 +534,23 @@ func TestVerifC33RawStreams(t *testing.T) {
 				b.u16(0x0303)
 				b.raw(rapid.SliceOfN(rapid.Byte(), 32, 32).Draw(rt, l+"random"))
 				b.vec8(prep.Offer.Hello.SessionID)
-				b.u16(rapid.SampledFrom([]uint16{0x1301, 0xc02f, 0x0a0a, 0x0000}).Draw(rt, l+"suite"))
+				suite := rapid.SampledFrom([]uint16{0x1301, 0xc02f, 0x0a0a, 0x0000}).Draw(rt, l+"suite")
+				if offered := prep.Offer.Suites; len(offered) > 0 && rapid.Bool().Draw(rt, l+"suite_offered") {
+					// a suite the hello really offers (TLS 1.3 or legacy): with the echoed session id and no extensions this
+					// is a well-formed ServerHello of a server that claims to resume a session the client never had
+					suite = offered[rapid.IntRange(0, len(offered)-1).Draw(rt, l+"suite_idx")]
+				}
+				b.u16(suite)
 				b.u8(0)
-				b.vec16(rapid.SliceOfN(rapid.Byte(), 0, 60).Draw(rt, l+"exts"))
+				switch rapid.IntRange(0, 3).Draw(rt, l+"extkind") {
+				case 0:
+					b.vec16(rapid.SliceOfN(rapid.Byte(), 0, 60).Draw(rt, l+"exts"))
+				case 1: // no extensions block at all
+				case 2:
+					b.vec16(nil)
+				default: // well-formed: renegotiation_info and extended_master_secret
+					b.vec16([]byte{0xff, 0x01, 0x00, 0x01, 0x00, 0x00, 0x17, 0x00, 0x00})
+				}
 				body = vsrvMsg(2, b.b)
 			default:
 				body = make([]byte, rapid.SampledFrom([]int{0, 1, 16384, 16385, 18000}).Draw(rt, l+"biglen"))
